@@ -76,3 +76,23 @@ def count_rules(ctx, rep, P):
                     by_arg = rp is not None and rp["l"] == 2
         rep.check(P + ".count", "LimitedReader: the remaining block size shrinks by the bytes actually read", len(mins) == 1 and len(subs) == 1 and not in_parent and len(insp) == 1 and by_arg, loc_of(b), "",
                   "the metadata block limiter no longer accounts the bytes returned by the inner read: a source that splits its reads ends the block early")
+
+
+def flush_forward_rules(ctx, rep, P):
+    """every io::Write adaptor of the crate forwards flush() to the stream it wraps and returns that result"""
+    F = ctx.facts()
+    n = 0
+    for b in F.bodies:
+        if b.promoted is not None or not re.search(r" as std::io::Write>::flush$", b.path):
+            continue
+        n += 1
+        fl = [(bi, t) for bi, t in b.calls() if re.search(r"std::io::Write>?::flush$", callee_name(t))]
+        good = len(fl) == 1
+        if good:
+            # the call's result is what is returned
+            good = fl[0][1]["d"]["l"] == 0 or any(k == "call" and x is fl[0][1] for bl in b.blocks for s_ in bl["s"] if s_["d"]["l"] == 0 for k, x in origins(b, s_["rv"].get("o", {})) if s_["rv"]["r"] == "use")
+            rp = root_place(b, fl[0][1]["a"][0])
+            good = good and rp is not None and rp["l"] == 1 and bool(place_fields(rp))
+        rep.check(P + ".count", "%s forwards to the wrapped stream's flush and returns its result" % b.path, good, loc_of(b), "",
+                  "flush() of a writer adaptor no longer reaches the underlying stream (or drops its result): buffered output can be lost while success is reported")
+    rep.floor(P + ".count", "Write::flush implementations", n, 3)
